@@ -42,7 +42,10 @@ theorem deliver_msg_TV' (hw : WFConfig accts groups) {s : Sys} {a : Acct} {rest 
     (hq : queueOf s.outbound a = .msg id peer part im encs pl :: rest)
     (hshape' : DownShape (.msg id peer part im encs' pl))
     (hctr : encs'.map (fun e => e.2.ctr) = encs.map (fun e => e.2.ctr))
-    (hpark : encs' ≠ encs → ∀ c' out, ¬ OutC (getClient s a) (.msg id peer part im encs' pl) peer part (whoOf peer part) c' out) :
+    (hpark : encs' ≠ encs → ∀ c' out,
+      RStep { s with outbound := insert s.outbound a rest }
+        (handleEnc { s with outbound := insert s.outbound a rest } a (.msg id peer part im encs' pl)) a c' out →
+      ¬ OutC (getClient s a) (.msg id peer part im encs' pl) peer part (whoOf peer part) c' out) :
     TV ex accts groups s.submitted
       (view (clientReceive { s with outbound := insert s.outbound a rest } a (.msg id peer part im encs' pl))) := by
   have hmem : Stanza.msg id peer part im encs pl ∈ (view s).outb a := by
@@ -96,7 +99,7 @@ theorem deliver_msg_TV' (hw : WFConfig accts groups) {s : Sys} {a : Acct} {rest 
       have hrs := RecipStep.ofPark (V := view s) (x := a) (rest := rest) hT ha rfl hq
         (fun e he => (hA.client a).iq_lt e.1 e.2 he) hc
       exact finish_recip hw.1 hT hrs hv0 hstep
-    · exact absurd hc (hpark hee c' out)
+    · exact absurd hc (hpark hee c' out hstep)
 
 theorem deliver_msg_TV (hw : WFConfig accts groups) {s : Sys} {a : Acct} {rest : List Stanza} {id : Nat} {peer : Dest}
     {part : Option Acct} {im : Bool} {encs : List (Option Acct × Ct)} {pl : Option Payload}
